@@ -320,7 +320,7 @@ fn gen_text_corpus(rng: &mut Rng, ext: &str) -> Vec<u8> {
         let d = *rng.pick(&['\u{662}', '\u{ff11}', '\u{96a}', '\u{1d7d8}']);
         format!("{}{}{}", &l[..i], d, &l[i + 1..])
     };
-    let short_tag = |rng: &mut Rng| -> &'static str { *rng.pick(&["\u{e9}", "\u{e9}\u{e9}", "\u{fc}\u{fc}", "\u{20ac}", "ab\u{20ac}", "\u{65e5}\u{672c}", "NoAs", "a\u{e9}b", "\u{e9}_\u{fc}_x_y", "Caf\u{e9}Bar"]) };
+    let short_tag = |rng: &mut Rng| -> &'static str { *rng.pick(&["", " ", "  ", "\u{a0}", "\t", "\u{e9}", "\u{e9}\u{e9}", "\u{fc}\u{fc}", "\u{20ac}", "ab\u{20ac}", "\u{65e5}\u{672c}", "NoAs", "a\u{e9}b", "\u{e9}_\u{fc}_x_y", "Caf\u{e9}Bar"]) };
     let long_name = |rng: &mut Rng| -> String {
         let l = match rng.below(6) { 0 => 65_480 + rng.usize(80), 1 => 65_536, 2 => 70_000, 3 => 131_072 + rng.usize(3), 4 => 32_768, _ => 255 + rng.usize(3) };
         "T".repeat(l)
@@ -374,7 +374,17 @@ fn gen_text_corpus(rng: &mut Rng, ext: &str) -> Vec<u8> {
         }
         "txt" => {
             for _ in 0..n {
-                let l = match rng.below(12) {
+                let l = match rng.below(14) {
+                    12 => {
+                        // \s in the line grammars is Unicode aware as well: multi-byte white space after the time stamp
+                        let ws = *rng.pick(&["\u{a0}", "\u{2003}", "\u{3000}", "\u{85}", " \u{a0}"]);
+                        if rng.bool() {
+                            format!("{:02}-{:02} {:02}:{:02}:{:02}.{:03}{}{}  {} I Tag: unicode white space\n", 1 + rng.below(12), 1 + rng.below(28), rng.below(24), rng.below(60), rng.below(60), rng.below(1000), ws, rng.below(10000), rng.below(10000))
+                        } else {
+                            format!("{}{}.{:03}{}{} {} W Tag: unicode white space\n", ws, rng.below(100000), rng.below(1000), ws, rng.below(10000), rng.below(10000))
+                        }
+                    }
+                    13 => format!("{:02}-{:02} {:02}:{:02}:{:02}.{:03} {}{}{}{}I{}Tag{}: {}\n", 1 + rng.below(12), 1 + rng.below(28), rng.below(24), rng.below(60), rng.below(60), rng.below(1000), rng.below(10000), *rng.pick(&[" ", "\u{a0}", "\u{2003}"]), rng.below(10000), *rng.pick(&[" ", "\u{a0}"]), *rng.pick(&[" ", "\u{a0}"]), *rng.pick(&["", " ", "\u{a0}"]), "text"),
                     11 => {
                         // threadtime stamp of exactly 18 bytes in which one digit is a multi-byte (Unicode) digit
                         let (d, k) = *rng.pick(&[('\u{662}', 2usize), ('\u{6f3}', 2), ('\u{ff11}', 3), ('\u{96a}', 3)]);
